@@ -128,6 +128,62 @@ def mirror_both_glide(prob, a, b):
             and abs(sum(b["hu"].values()) - sum(a["cu"].values())) <= lim and abs(sum(b["cu"].values()) - sum(a["hu"].values())) <= lim)
 
 
+def undersupplied_cold_utility(problem, recs):
+    """Trigger of finding D24 inside a twin comparison: a user utility usable as cold utility exists and some direct-integration
+    record lists less cold duty than its Qc while its hot side closes and no default cold utility carries duty."""
+    if not any(u["type"] in ("Cold", "Both") for u in problem["utilities"]):
+        return False
+    for name, r in recs.items():
+        if name.endswith("Direct Integration"):
+            if sum(r["cu"].values()) < r["Qc"] - 1e-6 and abs(sum(r["hu"].values()) - r["Qh"]) <= 1e-6 * max(1.0, r["Qh"]) \
+                    and r["cu"].get("CU", 0.0) <= 1e-9:
+                return True
+    return False
+
+
+def _inexact(problem):
+    """True when the first arithmetic step of the implementation (temperature -/+ dt_cont) is not exact in binary floating point
+    for some stream or utility of the description: then two levels that are equal as real numbers may differ by an ulp."""
+    from fractions import Fraction as Fr
+    for s in problem["streams"] + problem["utilities"]:
+        for t in (s["t_supply"], s["t_target"]):
+            for sg in (1.0, -1.0):
+                if Fr(t) + Fr(sg * s["dt_cont"]) != Fr(t + sg * s["dt_cont"]):
+                    return True
+    return False
+
+
+def knife_edge(prob, twin, ra):
+    """A failing twin comparison is not evidence against the property when (1) the original sits on an exact tie -- moving every
+    utility level by a relative 2^-50 (about 0.2 ulp of a picokelvin, far below any tolerance of the code) changes a duty or a
+    target -- and (2) the shifted temperatures of the twin or of the original are not exactly representable, so that the twin the
+    implementation sees is not the exact image of the original.  Zero stays zero under the relative nudge, so a special-cased
+    temperature in the twin is not hidden by this filter (the twin is never nudged)."""
+    if not (_inexact(prob) or _inexact(twin)):
+        return False
+    for sgn in (1, -1):
+        pp = copy.deepcopy(prob)
+        for u in pp["utilities"]:
+            for f in ("t_supply", "t_target"):
+                u[f] *= (1 + sgn * 2.0 ** -50)
+        try:
+            rn = records(pp)
+        except Exception:  # noqa: BLE001
+            return True
+        for name, a in ra.items():
+            b = rn.get(name)
+            if b is None:
+                return True
+            sc = 1e-6 * max(1.0, a["Qh"], a["Qc"])
+            if abs(a["Qh"] - b["Qh"]) > sc or abs(a["Qc"] - b["Qc"]) > sc:
+                return True
+            for side in ("hu", "cu"):
+                for n in set(a[side]) | set(b[side]):
+                    if abs(a[side].get(n, 0.0) - b[side].get(n, 0.0)) > sc:
+                        return True
+    return False
+
+
 def _straddling_hot_utility(problem):
     """A hot-typed user utility with a glide whose supply end reaches the hottest shifted cold-stream temperature while its target
     end lies STRICTLY below it (equality is accepted by the code's >= test and is not part of the finding)."""
@@ -175,6 +231,13 @@ def run(ctx):
                            dict(zone="P0", name="S1", t_supply=165.0, t_target=220.0, heat_flow=110.0, dt_cont=2.5, htc=2.0)],
                   utilities=[dict(name="TopU", type="Both", t_supply=285.0, t_target=285.0, heat_flow=0.0, dt_cont=10.0, htc=1.0, price=30.0),
                              dict(name="BotU", type="Cold", t_supply=162.5, t_target=162.5, heat_flow=0.0, dt_cont=5.0, htc=1.0, price=2.0)]), None)]
+    # D24 witness (open finding, listed for C12): a gliding cold utility that passes the reach test on its supply end but is cut at its
+    # target end leaves the zone undersupplied; the mirror image gets a default hot utility instead
+    base.append((dict(streams=[dict(zone="P0", name="S0_0", t_supply=130.0, t_target=210.0, heat_flow=100.0, dt_cont=0.0, htc=1.0),
+                               dict(zone="P0", name="S1_0", t_supply=115.0, t_target=114.9995, heat_flow=40.0, dt_cont=0.0, htc=1.0)],
+                      utilities=[dict(name="HPS", type="Hot", t_supply=217.0, t_target=215.0, heat_flow=0.0, dt_cont=5.0, htc=1.0, price=30.0),
+                                 dict(name="LPS", type="Hot", t_supply=164.49975, t_target=162.49975, heat_flow=0.0, dt_cont=5.0, htc=1.0, price=20.0),
+                                 dict(name="CW", type="Cold", t_supply=102.4995, t_target=114.4995, heat_flow=0.0, dt_cont=2.5, htc=1.0, price=2.0)]), None))
     for _ in range(n):
         base.append(pc.gen_problem(ctx.rng, nzones=ctx.rng.choice([1, 1, 2, 3]), regime=ctx.rng.choice(["none", "iso", "multi", "glide", "steered", "limit", "limit"]), nmax=5))
     for prob, m in base:
@@ -215,9 +278,9 @@ def run(ctx):
                     hn = sorted(set(a["hu"]) | set(b["hu"]))
                     cn = sorted(set(a["cu"]) | set(b["cu"]))
                     cf.add(f"c12_b {mode} {qlit(k)} {qlit(d)} {trec(a, hn, cn)} {trec(b, hn, cn)}")
-                meta.append((prob, q, tname, name, a, b))
-    agree = bad = 0
-    for (prob, q, tname, name, a, b), v in zip(meta, cf.run()):
+                meta.append((prob, q, tname, name, a, b, ra, rb))
+    agree = bad = frag = 0
+    for (prob, q, tname, name, a, b, ra, rb), v in zip(meta, cf.run()):
         ctx.evaluations += 1
         ctx.count(f"{tname}_{name.rpartition('/')[2].replace(' ', '')}")
         kinds = {s["t_supply"] > s["t_target"] for s in prob["streams"]}
@@ -226,6 +289,11 @@ def run(ctx):
         ctx.sample(dict(transformation=tname, record=name, original=(a["Qh"], a["Qc"], a["Qr"]), twin=(b["Qh"], b["Qc"], b["Qr"])), limit=7)
         if v[0] == 0:
             agree += 1
+            continue
+        if undersupplied_cold_utility(prob, ra) or undersupplied_cold_utility(q, rb):
+            ctx.fail("glide-utility-undersupplied", f"{tname}: record {name}: one of the two descriptions has a zone whose cold user utility is "
+                     "undersupplied (finding D24), so the twin relation cannot hold", suite="twins",
+                     input=dict(problem=prob, twin=q, transformation=tname, record=name), impl_output=dict(original=a, twin=b), predicate="c12_b")
             continue
         if tname == "mirror" and mirror_reach_asymmetry(prob, a, b, q):
             ctx.fail("mirror-reach-criterion-asymmetry", f"mirror: record {name}: a gliding utility is accepted as reaching on one side but replaced by "
@@ -237,12 +305,15 @@ def run(ctx):
                      "isothermal Both utility", suite="twins", input=dict(problem=prob, twin=q, transformation=tname, record=name),
                      impl_output=dict(original=a, twin=b), predicate="c12_b")
             continue
+        if knife_edge(prob, q, ra):
+            frag += 1
+            continue
         if bad < 3:
             clause = {121: "targets", 122: "utility duties", 123: "pinch temperatures"}.get(v[1], str(v))
             ctx.fail(f"twin-{tname}", f"{tname}: {clause} of record {name} do not follow the transformation", suite="twins",
                      input=dict(problem=prob, twin=q, transformation=tname, record=name), impl_output=dict(original=a, twin=b), predicate=f"c12_b {v}")
         bad += 1
-    ctx.suite("twins", cases=len(meta), agree=agree, property_false=bad, mismatch=0, fragile_skipped=0)
+    ctx.suite("twins", cases=len(meta), agree=agree, property_false=bad, mismatch=0, fragile_skipped=frag)
 
 
 def replay(ctx, data):
